@@ -21,6 +21,7 @@ EXPLANATION = (
     "legacy RenderTreeGraph adds only a forwarding constructor, every constructor option is stored under its own name. "
     "D1c every admitted node/edge reaches its yield on every path of its loop; D6 line templates are constants filled through "
     "%-arguments / format fields only. Not decided: the exact text of the lines."
+    " Added in round 18: no branch of the default name / label code is decided by the truth value of the node's name ('' / 0 / None are names); D5 accepts a spelled-out RenderTreeGraph signature equal to DotExporter's."
 )
 ASSUMPTIONS = ["PreOrderIter admits nodes as C06 states", "user-supplied name/attribute functions are opaque"]
 FILES = {"anytree/exporter/dotexporter.py", "anytree/dotexport.py"}
@@ -30,6 +31,7 @@ def run(ctx):
     typer = typer_for(ctx)
     X.rule_D1(ctx, typer, "DotExporter")
     X.rule_optint_truthiness(ctx, typer, FILES)
+    X.rule_name_truthiness(ctx, typer, FILES)
     X.rule_D1c_complete(ctx, typer, "DotExporter")
     ctx.floor("D1c", 2)
     X.rule_D3_escape(ctx, typer, "DotExporter", quoted=True)
